@@ -192,3 +192,90 @@ func opInWriteAll(prop string, bound int) []*explore.Scenario {
 	}
 	return out
 }
+
+// handCtx is a context.Context implementation that is not package context's: a caller may pass
+// any implementation of the interface. Its cancellation reaches contexts derived from it through
+// a separate goroutine, so "who notices first" is open.
+type handCtx struct {
+	done chan struct{}
+	err  error
+	vals map[any]any
+	dl   time.Time
+}
+
+func newHandCtx() *handCtx                            { return &handCtx{done: make(chan struct{}), vals: map[any]any{}} }
+func (c *handCtx) Deadline() (time.Time, bool)        { return c.dl, !c.dl.IsZero() }
+func (c *handCtx) Done() <-chan struct{}              { return c.done }
+func (c *handCtx) Err() error                         { return c.err }
+func (c *handCtx) Value(k any) any                    { return c.vals[k] }
+func (c *handCtx) cancel()                            { c.err = context.Canceled; close(c.done) }
+
+// foreignContextCancel: a stream (or unary call) made under a hand-written context; that
+// context ends. The usual clauses of a cancellation apply: operations fail, a reset reaches the
+// wire, the handler's context is done, the connection is idle again.
+func foreignContextCancel(prop, kind string, bound int) *explore.Scenario {
+	fam := prop + "/foreign-context"
+	return &explore.Scenario{
+		Name: fmt.Sprintf("%s/foreign-context/%s", prop, kind), Family: fam, Prop: prop, Bound: bound, Horizon: time.Hour,
+		Run: func() {
+			w := env.NewWorld()
+			d := env.NewDirect(w, env.DirectOpts{Pipe: env.PipeOpts{Cap: 64}})
+			vsched.Settle()
+			idle := c14State(d)
+			hc := newHandCtx()
+			r := w.Rec("s", kind)
+			if kind == "Unary" {
+				w.Unaries["s"] = func(r *env.Rec, ctx context.Context, in string) (string, error) {
+					<-ctx.Done()
+					return "late", nil
+				}
+				vsched.Explore(true)
+				vsched.GoNamed("caller", func() { w.CallUnary(d.CC, hc, r, "x") })
+				vsched.Quiesce()
+				hc.cancel()
+				vsched.Quiesce()
+				if !r.CDone || r.CErr == nil {
+					vsched.Fail(fam+"|caller-hang", "a unary call under a hand-written context that was cancelled: done=%v err=%v", r.CDone, r.CErr)
+				}
+				return
+			}
+			w.Handlers["s"] = env.HEcho
+			cs := w.Open(d.CC, hc, r)
+			if cs == nil || env.CSend(r, cs, "m0") != nil || env.CRecvOne(r, cs) != nil {
+				vsched.Fail(fam+"|harness", "stream not established: %s", r.Summary())
+				return
+			}
+			vsched.Explore(true)
+			recvDone := false
+			var recvErr error
+			vsched.GoNamed("receiver", func() { recvErr = cs.RecvMsg(new(env.Msg)); recvDone = true })
+			vsched.Quiesce()
+			hc.cancel()
+			vsched.Quiesce()
+			sendErr := cs.SendMsg(env.S("m1"))
+			vsched.Quiesce()
+			reset := false
+			for _, e := range d.Tap.Events {
+				if e.Dir == "a2b" && e.Rpc.GetReset_() != nil {
+					reset = true
+				}
+			}
+			vsched.Obs("%s: recv done=%v err=%s send err=%s reset=%v handler ctx done=%v", kind, recvDone, env.ErrStr(recvErr), env.ErrStr(sendErr), reset, r.HCtx != nil && r.HCtx.Err() != nil)
+			if !recvDone || recvErr == nil {
+				vsched.Fail(fam+"|caller-hang", "the caller's hand-written context was cancelled: a blocked RecvMsg: done=%v err=%v", recvDone, recvErr)
+			}
+			if sendErr == nil {
+				vsched.Fail(fam+"|later-op-result", "a SendMsg after the caller's context was cancelled succeeded")
+			}
+			if !reset {
+				vsched.Fail(fam+"|no-reset", "the caller's (hand-written) context was cancelled: no reset for the stream reached the wire")
+			}
+			if r.HCtx == nil || r.HCtx.Err() == nil {
+				vsched.Fail(fam+"|handler-ctx-live", "the caller's (hand-written) context was cancelled: the handler's context is still live")
+			}
+			if st := c14State(d); st != idle {
+				vsched.Fail(fam+"|not-idle:"+diffKey(idle, st), "after a stream under a hand-written context was cancelled the connection did not return to its idle state:\n%s", diffStates(idle, st))
+			}
+		},
+	}
+}
